@@ -32,6 +32,7 @@ impl Prop for P {
             rule: "plaintext recipes (random/run/small-alphabet/high-byte/copy-back at threshold distances/text/sparse-repeat segments; sizes concentrated on 0-3, 258, 4096, 31744, 32768, 65535/6, 85196 and a tail) x level 0..=255 x {raw, zlib}; oracle: round trip through the crate AND the independent reference inflater (Valid, same bytes, consumed == length), system zlib as second opinion, levels > 10 byte-identical to level 10. Non-trivial = input >= 3 bytes and the reference trace shows a match, >= 2 blocks, a stored block at level >= 1, or the input exceeds 32 KiB; distinct by case fingerprint",
             assumptions: &["reference inflater implements RFC 1951/1950 (self-checked)"],
             dbg: false,
+            simd: false,
             exhaustive: None,
         }
     }
